@@ -415,7 +415,8 @@ def run_c08(ctx):
                            "Argument().String() compared code point by code point; long random strings were decoded by the spec from the same text")
     return ctx.finish(cov, [
         "RFC 6020 does not fix the order of escape substitution and white-space stripping: a string is judged only if both orders give the same value",
-        "a backslash before a character other than n t \" \\ and a CR that is not part of CR LF are not generated; the quote column is unjudged after a non-ASCII character on the same line",
+        "a backslash before a character other than n t \" \\ and a CR that is not part of CR LF are not generated",
+        "the column of the opening quote is counted in characters: a tab takes 8 columns, any other character (1 to 4 bytes) takes 1",
         "a tab counts as 8 columns (property statement), not as a tab stop",
     ])
 
@@ -487,7 +488,7 @@ def run_c10(ctx):
     # all layouts of one tree agree on everything but positions
     groups = {}
     for i, (v, r) in enumerate(zip(vecs, results)):
-        if r["ret"] == "ok":
+        if r["ret"] == "ok" and v.get("layoutFree", True):    # trees with fixed source forms change value with the layout
             groups.setdefault((v["fam"], v["tid"]), {}).setdefault(r["shape"], []).append(i)
     badset = set(bad)
     layout_dis = []
@@ -553,10 +554,10 @@ MANIFEST = {
              "stripping, the four escapes, concatenation); TLC enumerates layouts (quote column, indents of spaces and tabs around it, trailing blanks, "
              "LF/CRLF, empty and blank lines, escapes, comments inside quotes, trivia around +) with their values; the real parser's "
              "Argument().String() is compared code point by code point; long random strings are decoded by the spec from the same text.",
-             note="judged only where substituting escapes before or after stripping gives the same value (RFC 6020 is silent)", design="4 C08", technique=YP),
+             note="judged only where substituting escapes before or after stripping gives the same value (RFC 6020 is silent); quote column in characters (tab 8, else 1)", design="4 C08", technique=YP),
  "C10": dict(text="YangTree.tla renders statement trees with any trivia at every token boundary and any quoting form of every argument, and reads texts "
              "back (intended lexer + RFC 6020 statement grammar); TLC checks the reader inverts the rendering on every generated layout; the real "
              "parser's tree, walked through the public API, must equal the source tree (keywords, decoded arguments, order, nesting, line:column) and "
-             "all layouts of one tree must agree up to positions; repository YANG and TLC's re-laid-out forms are judged by the spec reading the same text.",
+             "all layouts of one tree must agree up to positions; the same raw multi-line string at several quote columns must decode per occurrence; repository YANG and TLC's re-laid-out forms are judged by the spec reading the same text.",
              note="open finding: a comment directly after an unquoted word is swallowed into the word", design="4 C10", technique=YP),
 }
